@@ -8,15 +8,15 @@ EXTENDS Compound
 
 \* ---- values that are lists: rtcp.Marshal([]Packet) and CompoundPacket ----
 IsList(v)  == v.k \in {"LIST", "CP"}
-\* the packets a list stands for on the wire: a CompoundPacket given to rtcp.Marshal as a member of a list
-\* contributes its own members in place (one level of nesting)
-Pk(v) == IF v.k = "LIST" /\ (\E i \in 1..Len(v.pkts) : v.pkts[i].k = "CP")
+\* the packets a list stands for on the wire: a CompoundPacket that is a member of a list given to rtcp.Marshal,
+\* or of another CompoundPacket, contributes its own members in place (one level of nesting)
+Pk(v) == IF IsList(v) /\ (\E i \in 1..Len(v.pkts) : v.pkts[i].k = "CP")
          THEN FlatSeq([i \in 1..Len(v.pkts) |-> IF v.pkts[i].k = "CP" THEN v.pkts[i].pkts ELSE << v.pkts[i] >>])
          ELSE v.pkts
 WFAny(D, v) ==
   IF IsList(v) THEN /\ \A i \in 1..Len(Pk(v)) : ~IsList(Pk(v)[i]) /\ WF(D, Pk(v)[i])
                     /\ (v.k = "CP" => Valid(v.pkts))
-                    /\ (v.k = "LIST" => \A i \in 1..Len(v.pkts) : v.pkts[i].k = "CP" => Valid(v.pkts[i].pkts))
+                    /\ (\A i \in 1..Len(v.pkts) : v.pkts[i].k = "CP" => Valid(v.pkts[i].pkts))
   ELSE WF(D, v)
 OverAny(v) ==
   IF IsList(v) THEN \E i \in 1..Len(Pk(v)) : ~IsList(Pk(v)[i]) /\ Over(Pk(v)[i])
